@@ -7,5 +7,5 @@ CONSTANTS
   GenVars = {"x", "y"}
   SimpleKinds = {"assign", "use", "call", "return", "raise", "break", "continue"}
   Shape = "any"
-INVARIANT InvAll
+INVARIANT InvAllLive
 CHECK_DEADLOCK FALSE
